@@ -440,7 +440,7 @@ def respell_string(tok, r):
     for ch in chars:
         k = r.random()
         if ch == "\\":
-            out.append("\\\\")
+            out.append("\\\\" if k < 0.6 else "\\x5c")
         elif ch == q:
             out.append("\\" + q)
         elif ch == "\n":
